@@ -10,37 +10,258 @@ Definition data_some (items : list (list N * obj)) : Prop :=
 Definition commons (pre : list N) (delim : option N) (keys : list (list N)) : list (list N) :=
   flat_map (fun k => match prefix_match pre delim k with MCommon p => [p] | _ => [] end) keys.
 
+(* ---- helpers -------------------------------------------------------------- *)
+
+Lemma filter_filter_and {A} (f g : A -> bool) l :
+  filter f (filter g l) = filter (fun x => g x && f x)%bool l.
+Proof.
+  induction l as [|a l IH]; cbn; [reflexivity|].
+  destruct (g a) eqn:Eg; cbn; [|exact IH].
+  destruct (f a) eqn:Ef; rewrite IH; reflexivity.
+Qed.
+
+Lemma filter_true {A} (l : list A) : filter (fun _ => true) l = l.
+Proof. induction l as [|a l IH]; cbn; [reflexivity|]. rewrite IH. reflexivity. Qed.
+
+(* membership test used by add_prefix *)
+Definition bmem (p : list N) (ps : list (list N)) : bool := existsb (beq p) ps.
+
+Lemma bmem_In p ps : bmem p ps = true <-> In p ps.
+Proof.
+  unfold bmem. rewrite existsb_exists. split.
+  - intros [y [Hy Hb]]. apply beq_eq in Hb. subst. exact Hy.
+  - intros H. exists p. split; [exact H|apply beq_refl].
+Qed.
+
+Lemma bmem_app p s t : bmem p (s ++ t) = (bmem p s || bmem p t)%bool.
+Proof. unfold bmem. apply existsb_app. Qed.
+
+Definition addp (ps : list (list N)) (p : list N) : list (list N) := add_prefix p ps.
+
+Lemma add_prefix_in p ps : In p ps -> add_prefix p ps = ps.
+Proof.
+  intros H. unfold add_prefix. apply bmem_In in H. unfold bmem in H. rewrite H. reflexivity.
+Qed.
+
+Lemma in_add_prefix p ps : In p (add_prefix p ps).
+Proof.
+  unfold add_prefix. destruct (existsb (beq p) ps) eqn:E.
+  - apply bmem_In. exact E.
+  - apply in_or_app. right. left. reflexivity.
+Qed.
+
+(* folding add_prefix from an arbitrary start list *)
+Lemma fold_addp_dedup l : forall s,
+  fold_left addp l s = s ++ filter (fun y => negb (bmem y s)) (dedup l).
+Proof.
+  induction l as [|x l IH]; intros s.
+  - cbn. rewrite app_nil_r. reflexivity.
+  - cbn [fold_left dedup].
+    change (addp s x) with (if bmem x s then s else s ++ [x]).
+    destruct (bmem x s) eqn:E; rewrite IH.
+    + cbn [filter]. rewrite E. cbn [negb]. f_equal.
+      rewrite filter_filter_and. apply filter_ext. intros y.
+      destruct (bmem y s) eqn:Ey; cbn [negb]; [rewrite Bool.andb_false_r; reflexivity|].
+      rewrite Bool.andb_true_r.
+      destruct (beq x y) eqn:Exy; [|reflexivity].
+      apply beq_eq in Exy. subst. congruence.
+    + cbn [filter]. rewrite E. cbn [negb]. rewrite <- app_assoc. cbn [app]. f_equal. f_equal.
+      rewrite filter_filter_and. apply filter_ext. intros y.
+      rewrite bmem_app. unfold bmem at 2. cbn [existsb]. rewrite Bool.orb_false_r.
+      rewrite (beq_sym y x).
+      destruct (bmem y s); destruct (beq x y); reflexivity.
+Qed.
+
+Lemma fold_addp_nil l : fold_left addp l [] = dedup l.
+Proof. rewrite fold_addp_dedup. cbn [app bmem existsb negb]. apply filter_true. Qed.
+
+(* what scan (without limit) appends for each item *)
+Definition lconts (pre : list N) (delim : option N) (items : list (list N * obj))
+  : list (list N * list N) :=
+  flat_map (fun kv => match o_data (snd kv) with
+                      | Some v => if vd_marker v then [] else
+                                  match prefix_match pre delim (fst kv) with
+                                  | MContent => [(fst kv, vd_body v)]
+                                  | _ => []
+                                  end
+                      | None => []
+                      end) items.
+
+Definition lcommons (pre : list N) (delim : option N) (items : list (list N * obj))
+  : list (list N) :=
+  flat_map (fun kv => match o_data (snd kv) with
+                      | Some v => if vd_marker v then [] else
+                                  match prefix_match pre delim (fst kv) with
+                                  | MCommon p => [p]
+                                  | _ => []
+                                  end
+                      | None => []
+                      end) items.
+
+Lemma lconts_keys pre delim items :
+  map fst (lconts pre delim items) =
+  filter (fun k => mr_eqb (prefix_match pre delim k) MContent) (live_keys items).
+Proof.
+  induction items as [|[k o] rest IH]; [reflexivity|].
+  unfold lconts, live_keys. cbn [flat_map fst snd].
+  fold (lconts pre delim rest). fold (live_keys rest).
+  rewrite map_app, filter_app, IH. f_equal.
+  destruct (o_data o) as [v|]; [|reflexivity].
+  destruct (vd_marker v); [reflexivity|].
+  cbn [filter]. destruct (prefix_match pre delim k) as [| |p]; reflexivity.
+Qed.
+
+Lemma lcommons_commons pre delim items :
+  lcommons pre delim items = commons pre delim (live_keys items).
+Proof.
+  induction items as [|[k o] rest IH]; [reflexivity|].
+  unfold lcommons, live_keys, commons. cbn [flat_map fst snd].
+  fold (lcommons pre delim rest). fold (live_keys rest).
+  rewrite flat_map_app. fold (commons pre delim (live_keys rest)). rewrite IH. f_equal.
+  destruct (o_data o) as [v|]; [|reflexivity].
+  destruct (vd_marker v); [reflexivity|].
+  cbn [flat_map]. rewrite app_nil_r. reflexivity.
+Qed.
+
+Lemma lconts_in pre delim items k body :
+  In (k, body) (lconts pre delim items) ->
+  exists o v, In (k, o) items /\ o_data o = Some v /\ vd_marker v = false /\ vd_body v = body.
+Proof.
+  unfold lconts. rewrite in_flat_map. intros [[k' o] [Hin H]]. cbn [fst snd] in H.
+  destruct (o_data o) as [v|] eqn:E; [|contradiction].
+  destruct (vd_marker v) eqn:Em; [contradiction|].
+  destruct (prefix_match pre delim k') as [| |p]; try contradiction.
+  destruct H as [H|[]]. inversion H; subst.
+  exists o, v. auto.
+Qed.
+
+(* one loop iteration when there is no limit (maxkeys = 0) *)
+Lemma scan0_cons pre delim k o rest cnt lastp acc v :
+  o_data o = Some v ->
+  scan pre delim 0 ((k, o) :: rest) cnt lastp acc =
+  match prefix_match pre delim k with
+  | NoMatch => scan pre delim 0 rest cnt lastp acc
+  | MContent =>
+      if vd_marker v then scan pre delim 0 rest cnt lastp acc else
+      scan pre delim 0 rest (cnt + 1) lastp
+        {| lr_contents := lr_contents acc ++ [(k, vd_body v)];
+           lr_prefixes := lr_prefixes acc; lr_truncated := false;
+           lr_next := []; lr_panic := false |}
+  | MCommon p =>
+      if vd_marker v then scan pre delim 0 rest cnt lastp acc else
+      if match lastp with Some q => beq p q | None => false end
+      then scan pre delim 0 rest cnt lastp acc
+      else scan pre delim 0 rest (cnt + 1) (Some p)
+             {| lr_contents := lr_contents acc;
+                lr_prefixes := add_prefix p (lr_prefixes acc); lr_truncated := false;
+                lr_next := []; lr_panic := false |}
+  end.
+Proof. intros E. cbn [scan]. rewrite E. reflexivity. Qed.
+
+Definition clean (r : list_result) : Prop :=
+  lr_truncated r = false /\ lr_panic r = false /\ lr_next r = [].
+
+(* the generalised statement about the unlimited scan *)
+Lemma scan0_gen pre delim items : forall cnt lastp acc,
+  data_some items ->
+  (forall q, lastp = Some q -> In q (lr_prefixes acc)) ->
+  clean acc ->
+  let r := scan pre delim 0 items cnt lastp acc in
+  lr_contents r = lr_contents acc ++ lconts pre delim items /\
+  lr_prefixes r = fold_left addp (lcommons pre delim items) (lr_prefixes acc) /\
+  clean r.
+Proof.
+  induction items as [|[k o] rest IH]; intros cnt lastp acc Hd Hl Hc.
+  - cbn. rewrite app_nil_r. auto.
+  - inversion Hd as [|x l Ho Hd']; subst. cbn [snd] in Ho.
+    destruct (o_data o) as [v|] eqn:E; [|congruence].
+    cbv zeta. rewrite (scan0_cons pre delim k o rest cnt lastp acc v E).
+    unfold lconts, lcommons. cbn [flat_map fst snd]. rewrite E.
+    fold (lconts pre delim rest). fold (lcommons pre delim rest).
+    destruct (prefix_match pre delim k) as [| |p] eqn:Em.
+    + destruct (vd_marker v); cbn [app]; apply IH; assumption.
+    + destruct (vd_marker v); cbn [app]; [apply IH; assumption|].
+      specialize (IH (cnt + 1) lastp
+        {| lr_contents := lr_contents acc ++ [(k, vd_body v)];
+           lr_prefixes := lr_prefixes acc; lr_truncated := false;
+           lr_next := []; lr_panic := false |} Hd').
+      cbv zeta in IH. cbn [lr_contents lr_prefixes] in IH.
+      rewrite <- app_assoc in IH. cbn [app] in IH.
+      apply IH; [exact Hl|repeat split].
+    + destruct (vd_marker v); cbn [app]; [apply IH; assumption|].
+      destruct (match lastp with Some q => beq p q | None => false end) eqn:El.
+      * destruct lastp as [q|]; [|discriminate]. apply beq_eq in El. subst q.
+        cbn [fold_left]. unfold addp at 2. rewrite (add_prefix_in p); [|apply Hl; reflexivity].
+        apply IH; assumption.
+      * specialize (IH (cnt + 1) (Some p)
+          {| lr_contents := lr_contents acc;
+             lr_prefixes := add_prefix p (lr_prefixes acc); lr_truncated := false;
+             lr_next := []; lr_panic := false |} Hd').
+        cbv zeta in IH. cbn [lr_contents lr_prefixes] in IH.
+        cbn [fold_left]. unfold addp at 2.
+        apply IH; [|repeat split].
+        intros q Hq. inversion Hq; subst. apply in_add_prefix.
+Qed.
+
+Lemma unpaged_gen pre delim items :
+  data_some items ->
+  let r := unpaged pre delim items in
+  lr_contents r = lconts pre delim items /\
+  lr_prefixes r = dedup (commons pre delim (live_keys items)) /\
+  clean r.
+Proof.
+  intros Hd. cbv zeta. unfold unpaged.
+  destruct (scan0_gen pre delim items 0 None empty_list Hd) as [H1 [H2 H3]].
+  - intros q Hq. discriminate.
+  - repeat split.
+  - cbv zeta in H1, H2, H3. cbn [empty_list lr_contents lr_prefixes app] in H1, H2.
+    rewrite fold_addp_nil, lcommons_commons in H2. auto.
+Qed.
+
 (* Contents = the live keys that match as contents, in map order *)
 Lemma unpaged_contents pre delim items :
   data_some items ->
   map fst (lr_contents (unpaged pre delim items)) =
   filter (fun k => mr_eqb (prefix_match pre delim k) MContent) (live_keys items).
 Proof.
-Admitted.
+  intros Hd. destruct (unpaged_gen pre delim items Hd) as [H1 _].
+  rewrite H1. apply lconts_keys.
+Qed.
 
 (* CommonPrefixes = the common prefixes of the live keys, each once, in order of first appearance *)
 Lemma unpaged_prefixes pre delim items :
   data_some items ->
   lr_prefixes (unpaged pre delim items) = dedup (commons pre delim (live_keys items)).
 Proof.
-Admitted.
+  intros Hd. destruct (unpaged_gen pre delim items Hd) as [_ [H2 _]]. exact H2.
+Qed.
 
 Lemma unpaged_flags pre delim items :
   data_some items ->
   let r := unpaged pre delim items in
   lr_truncated r = false /\ lr_panic r = false /\ lr_next r = [].
 Proof.
-Admitted.
+  intros Hd. destruct (unpaged_gen pre delim items Hd) as [_ [_ H3]]. exact H3.
+Qed.
 
 (* each listed entry carries the body (hence Size and ETag) of that key's current version *)
 Lemma unpaged_bodies pre delim items k body :
   data_some items -> In (k, body) (lr_contents (unpaged pre delim items)) ->
   exists o v, In (k, o) items /\ o_data o = Some v /\ vd_marker v = false /\ vd_body v = body.
 Proof.
-Admitted.
+  intros Hd Hin. destruct (unpaged_gen pre delim items Hd) as [H1 _].
+  rewrite H1 in Hin. eapply lconts_in. exact Hin.
+Qed.
 
 Lemma dedup_nodup l : NoDup (dedup l).
 Proof.
-Admitted.
+  induction l as [|x l IH]; cbn [dedup]; constructor.
+  - intros H. apply filter_In in H. destruct H as [_ H]. rewrite beq_refl in H. discriminate.
+  - apply NoDup_filter. exact IH.
+Qed.
 
+Print Assumptions unpaged_contents.
 Print Assumptions unpaged_prefixes.
+Print Assumptions unpaged_flags.
+Print Assumptions unpaged_bodies.
+Print Assumptions dedup_nodup.
